@@ -788,6 +788,8 @@ func (p *Parser) evaluateImports(ctx context) ([]Statement, error) {
 		}
 	}
 	statements := []Statement{}
+	addedVariables := map[string]bool{} // Names (prefixed) of the variables that have already been added (also the private ones).
+	addedFunctions := map[string]bool{} // Names (prefixed) of the functions that have already been added (also the private ones).
 
 	// Add functions add variables.
 	for _, statement := range statementsTemp {
@@ -799,16 +801,20 @@ func (p *Parser) evaluateImports(ctx context) ([]Statement, error) {
 
 			for _, variable := range definedVariable.Variables() {
 				name := variable.Name()
+				exists = addedVariables[name]
+				addedVariables[name] = true
 
-				if _, exists = ctx.variables[name]; !exists && variable.Public() {
+				if !exists && variable.Public() {
 					ctx.variables[name] = variable
 				}
 			}
 		case STATEMENT_TYPE_FUNCTION_DEFINITION:
 			definedFunction := statement.(FunctionDefinition)
 			name := definedFunction.Name()
+			exists = addedFunctions[name]
+			addedFunctions[name] = true
 
-			if _, exists = ctx.functions[name]; !exists && definedFunction.Public() {
+			if !exists && definedFunction.Public() {
 				ctx.functions[name] = definedFunction
 			}
 		}
